@@ -5,7 +5,7 @@
    i.e. a definition as the REAL parser and the REAL desugarer hand it to lifting.
    Output (tab separated):
      CH <c>    the outcome class of Model.PipelineMirrors.analyse_body on it (identity hash orders,
-               the Goldilocks prime, pass budgets 4/4), in the words of the harness' RES field:
+               the prime and the pass budgets of the command line), in the words of the harness' RES field:
                ok | err-lift | panic-lift <site> | err-ssa | panic-ssa | other <what>
      CR <c>    the same with every hash-ordered set enumerated in reverse
      H <bits>  the decidable hypotheses, one 0/1 each, in this order:
@@ -34,8 +34,14 @@ let decode line =
 
 let b01 b = if b then "1" else "0"
 
-let goldilocks = z_of_hex "ffffffff00000001"
-let budget = nat_of_int 4
+(* third audit: `chain [PRIME_HEX [VALUE_PASSES DEGREE_PASSES]]` - the prime of the curve the harness hands to the
+   real into_cfg (lib/props/c01chain.py reads the decimal literal from the CURRENT utils/constants.rs and passes it
+   in hexadecimal) and the pass budgets the harness sets through the verification hook (default: the Goldilocks
+   prime, 4, 4: what the driver used until then). *)
+let arg i d = if Array.length Sys.argv > i then Sys.argv.(i) else d
+let prime = z_of_hex (arg 1 "ffffffff00000001")
+let budget_v = nat_of_int (int_of_string (arg 2 "4"))
+let budget_d = nat_of_int (int_of_string (arg 3 "4"))
 
 (* stage numbers of Model.PipelineMirrors: 1 desugar, 3 lift, 5 dom, 6 ssa, 7 propagate *)
 let outcome (r : PipelineMirrors.def_result) =
@@ -54,7 +60,7 @@ let line l =
   let d = decode (Stdlib.String.trim l) in
   let body = d.PipelineMirrors.d_body in
   let idh = (fun l -> l) and revh = Stdlib.List.rev in
-  let run h = outcome (PipelineMirrors.analyse_body Dom.id_order h goldilocks budget budget d body) in
+  let run h = outcome (PipelineMirrors.analyse_body Dom.id_order h prime budget_v budget_d d body) in
   let bits = [
     LiftFull.is_block body; LiftFull.stmt_sugar_free body; LiftFull.ast_init_flat body;
     PipelineMirrors.names_distinct d.PipelineMirrors.d_params d.PipelineMirrors.d_pfile d.PipelineMirrors.d_ploc body;
